@@ -5,6 +5,7 @@ pub mod relay;
 pub mod requests;
 pub mod services;
 pub mod timeouts;
+pub mod udp;
 
 use crate::scenario::Scenario;
 
@@ -37,6 +38,8 @@ impl Scenario for WithLogs {
     }
 }
 
+static UDPCODEC: udp::Udp = udp::Udp { flows_mode: false };
+static UDPFLOWS: udp::Udp = udp::Udp { flows_mode: true };
 static L_AUTH: WithLogs = WithLogs { inner: &AUTH, name: "secrets-auth" };
 static L_RESPONSES: WithLogs = WithLogs { inner: &RESPONSES, name: "secrets-responses" };
 static L_FORWARD: WithLogs = WithLogs { inner: &forward::Forward, name: "secrets-forward" };
@@ -45,7 +48,7 @@ static L_RELAY: WithLogs = WithLogs { inner: &relay::Relay, name: "secrets-relay
 static L_H1: WithLogs = WithLogs { inner: &h1::H1, name: "secrets-h1" };
 
 pub fn all() -> Vec<&'static dyn Scenario> {
-    vec![&relay::Relay, &AUTH, &RESPONSES, &EGRESS, &h1::H1, &timeouts::Timeouts, &forward::Forward, &services::Services, &metrics::Metrics, &L_AUTH, &L_RESPONSES, &L_FORWARD, &L_SERVICES, &L_RELAY, &L_H1]
+    vec![&relay::Relay, &AUTH, &RESPONSES, &EGRESS, &h1::H1, &timeouts::Timeouts, &forward::Forward, &services::Services, &metrics::Metrics, &UDPCODEC, &UDPFLOWS, &L_AUTH, &L_RESPONSES, &L_FORWARD, &L_SERVICES, &L_RELAY, &L_H1]
 }
 
 pub fn by_name(name: &str) -> Option<&'static dyn Scenario> {
